@@ -52,7 +52,12 @@ func (c02) RaceCases(tier string) int {
 func (c02) Floor(tier string) int { return 2000 }
 
 func evalDoc(expr string, doc *ref.V) (*ref.V, []*ref.V, error) {
-	out, err, pan := yqx.Eval(expr, doc.JSON()+"\n", "yaml", "json")
+	return evalDocFmt(expr, doc, "yaml")
+}
+
+// evalDocFmt hands the JSON text of doc to the named decoder ("yaml" or "json").
+func evalDocFmt(expr string, doc *ref.V, inFmt string) (*ref.V, []*ref.V, error) {
+	out, err, pan := yqx.Eval(expr, doc.JSON()+"\n", inFmt, "json")
 	if pan != nil {
 		return nil, nil, fmt.Errorf("panic: %s", pan.Sig())
 	}
